@@ -73,3 +73,30 @@ fn c13_1b_filter_silence() {
     kani::cover!(true);
     core::mem::forget(info); core::mem::forget(f);
 }
+
+// @ob id=C11.2a,C13.1c strength=bounded tier=thorough timeout=7200 bound="cutoff = sample_rate/4 (g instantiated as 1.0), resonance 0, fully wet, all four modes; two grid input frames from an arbitrary grid state; one 2-frame call vs two 1-frame calls" axioms=TAN fn=effect/filter.rs::<Filter as Effect>::process
+// @req two identical filters with fixed parameters
+// @ens the outputs and the final integrator states are identical however the input is split into process calls
+#[kani::proof]
+#[kani::unwind(8)]
+#[kani::stub(f64::tan, tan64_model)]
+fn c11_2a_filter_chunk_independent() {
+    let mode = any_mode();
+    let mut a = mk(mode, 8192.0, 0.0, 1.0);
+    let mut b = mk(mode, 8192.0, 0.0, 1.0);
+    let (s1, s2) = (grid_frame(), grid_frame());
+    a.ic1eq = s1; a.ic2eq = s2; b.ic1eq = s1; b.ic2eq = s2;
+    let src = [grid_frame(), grid_frame()];
+    let info = empty_info();
+    let mut x = src;
+    a.process(&mut x, DT, &info);
+    let mut y = src;
+    b.process(&mut y[0..1], DT, &info);
+    b.process(&mut y[1..2], DT, &info);
+    let g = tan64_model(core::f64::consts::PI * 0.25);
+    kani::assume(g == 1.0);
+    assert!(x[0].left == y[0].left && x[0].right == y[0].right && x[1].left == y[1].left && x[1].right == y[1].right, "C11.2a: the filter's output does not depend on how the input is split into process calls");
+    assert!(a.ic1eq.left == b.ic1eq.left && a.ic2eq.left == b.ic2eq.left && a.ic1eq.right == b.ic1eq.right && a.ic2eq.right == b.ic2eq.right, "C11.2a: nor does its state");
+    kani::cover!(x[1].left != 0.0);
+    core::mem::forget(info); core::mem::forget(a); core::mem::forget(b);
+}
